@@ -136,7 +136,7 @@ pub fn check_cell(run: &mut Run, rng: &mut Rng, c: MCell, class: &str, n_random:
 fn run(ctx: &Ctx) -> Run {
     silence_panics();
     let threads = ctx.threads;
-    let exhaustive_to: i32 = if ctx.quick() { 4 } else { 6 };
+    let exhaustive_to: i32 = if ctx.quick() { 4 } else { 7 };
     let mut out = parallel(threads, |w, run| {
         let mut rng = ctx.rng("C02", w);
         let fr = Frame::new();
